@@ -1,13 +1,11 @@
 package calendar
 
-func VH_DBG_Fu() {
-	Y, m, d, h, mi, s := vhMoment()
-	l := NewSolar(Y, m, d, h, mi, s).GetLunar()
-	fu := l.GetFu()
-	if fu != nil {
-		vDump("idx", fu.GetIndex())
-		vDump("name", fu.GetName())
-		vDump("d", d)
-	}
+func VH_DBG_Field() {
+	vhFieldLevel = true
+	base := NewSolar(vParam("Y"), 6, 15, 12, 0, 0).GetLunar()
+	l := vhLunarSym("", base)
+	vAssert("mxe:no-panic", !vPanics(func() { l.GetMonthXunExact() }))
+	f := l.GetFoto()
+	vAssert("xiu:no-panic", !vPanics(func() { f.GetXiu() }))
 	vReach("dbg")
 }
